@@ -1,0 +1,54 @@
+//go:build verif
+
+package memidm
+
+import (
+	"fmt"
+	"sort"
+)
+
+// VerifCheck compares the four maps of the identity manager directly (no locks taken: call it at quiescent
+// points only) and returns the list of broken structural invariants. It is only compiled with the verif build tag.
+func (idm *MemIdm) VerifCheck() []string {
+	var bad []string
+
+	if len(idm.groupsByName) != len(idm.groupsById) {
+		bad = append(bad, fmt.Sprintf("groups: %d names but %d ids", len(idm.groupsByName), len(idm.groupsById)))
+	}
+
+	if len(idm.usersByName) != len(idm.usersById) {
+		bad = append(bad, fmt.Sprintf("users: %d names but %d ids", len(idm.usersByName), len(idm.usersById)))
+	}
+
+	for name, g := range idm.groupsByName {
+		if g == nil || g.name != name || idm.groupsById[g.gid] != g {
+			bad = append(bad, "group maps disagree for name "+name)
+		} else if g.gid > idm.maxGid {
+			bad = append(bad, "group id above the id counter: "+name)
+		}
+	}
+
+	for gid, g := range idm.groupsById {
+		if g == nil || g.gid != gid || idm.groupsByName[g.name] != g {
+			bad = append(bad, fmt.Sprintf("group maps disagree for id %d", gid))
+		}
+	}
+
+	for name, u := range idm.usersByName {
+		if u == nil || u.name != name || idm.usersById[u.uid] != u {
+			bad = append(bad, "user maps disagree for name "+name)
+		} else if u.uid > idm.maxUid {
+			bad = append(bad, "user id above the id counter: "+name)
+		}
+	}
+
+	for uid, u := range idm.usersById {
+		if u == nil || u.uid != uid || idm.usersByName[u.name] != u {
+			bad = append(bad, fmt.Sprintf("user maps disagree for id %d", uid))
+		}
+	}
+
+	sort.Strings(bad)
+
+	return bad
+}
